@@ -248,7 +248,7 @@ class Case:
             self.viol("data_type_wrong_at_creation:%s" % t, {"got": repr(dt)})
         return "create_%s" % how, t
 
-    def other_type_candidate(self, t, mixed):
+    def other_type_candidate(self, t, mixed, arrays=False):
         rng, np = self.rng, self.np
         ot = rng.choice([x for x in PY if x != t])
         n = rng.randint(2, 5) if mixed else rng.randint(1, 4)
@@ -260,6 +260,19 @@ class Case:
         else:
             cand = [gen_value(rng, ot, np) for _ in range(n)]
             pc = "all"
+            if arrays and rng.random() < 0.35:
+                # (Property.values / extend_values take arrays; dictionary-style assignment takes a list or one value)
+                # the same values handed over as one NumPy array of the other kind (any width)
+                dts = {"int": [np.int64, np.int32, np.uint8, np.int16], "float": [np.float64, np.float32], "bool": [np.bool_], "str": [None]}[ot]
+                try:
+                    dt = rng.choice(dts)
+                    if ot == "int" and dt is not np.int64:
+                        cand = [int(v) % 100 for v in cand]
+                    arr = np.array([norm(ot, v) for v in cand]) if dt is None else np.array([norm(ot, v) for v in cand], dtype=dt)
+                    if arr.dtype.kind in {"int": "iu", "float": "f", "bool": "b", "str": "U"}[ot] and not (ot == "float" and not np.all(np.isfinite(arr))):
+                        cand, pc = arr, "all_as_array"
+                except Exception:
+                    pass
         return ot, cand, pc
 
     def step(self):
@@ -314,7 +327,7 @@ class Case:
             label = "clear_" + k
         elif op in ("bad_assign", "bad_extend", "dict_bad"):
             mixed = rng.random() < 0.6
-            ot, cand, pc = self.other_type_candidate(t, mixed)
+            ot, cand, pc = self.other_type_candidate(t, mixed, arrays=op != "dict_bad")
             self.fault_pos.add(pc)
             label = "%s_%s" % (op, "mixed" if mixed else "pure")
             p = self.prop(ent)
